@@ -69,6 +69,30 @@ on SPD local mass matrices), C19 6/6, C20 7/7. Scheduler-based checks:
     jobs (C17b, needs a second `assemble()`), idle worker skipping a colour's fence handshake (C17c: deadlock, found as `deadlock colored`).
   - C13: M1-M8, T2-M1/2 and two mutants of the MPI model itself (caught by `c13_minimpi_selftest`); seeded: early scatter of a
     neighbour's message while still packing for a later neighbour (C13), gate frequencies 2^k (C13b), blocked matrix mirror merge cursor (C13c).
+
+**(c) The lessons round.** After the third seeding round the eight patterns behind the misses (hidden state behind a dedup key,
+re-invocation on existing objects, derived objects, value alphabets, orders, first observation, unusual overloads, hangs - section
+"Lessons" of `engine/HARNESS_GUIDE.md`) were applied to *every* harness, not only to the one that had missed, and every addition was
+validated by a fresh mutant in a scratch copy (about 95 further mutants, all caught; those that only the new part catches are named in
+the harness sources). What this added, per property: C01 second invocation into the filled result, counterpart-first histories,
+clones/moved/index-converted matrices, sub-range vector views with guard entries, all-negative and extreme alphabets; C02 MemoryPool
+bookkeeping (`_scalar_dt`, reference counts, pool empty at the end) in the BFS key, derived-object phase, by-value overloads; C03 every
+operation twice on the same objects, weak-clone targets with bystanders; C04 second invocation with rewritten operands, derived
+operands, u32 index kinds; C05 reads into filled targets with shallow-clone bystanders, reversed MatrixMarket entry order, first access
+on unsorted sparse vectors, model history bits in the checkpoint BFS key; C06 the filter operation as *first* access to a fresh filter
+(the snapshot used to sort it), derived/pre-used filters, u32; C07 in-place matrix value updates between done_numeric/init_numeric;
+C09 re-initialisation histories with replaced operator values, bystander MultiGrid on the same hierarchy, user-defined level class,
+negative coarse-level form; C10/C12 re-invocation, clones, scrambled orders, 1D meshes, recursive 3-parent partitions; C11 parsing into
+filled node/atlas/partition sets (class R), block permutations and file splits, PropertyMap read-into/merge, %%g switch points and
+denormals; C13 several tickets in flight waited out of order, derived gates, alpha alphabet, empty mirrors, Splitter/Muxer with
+non-ascending mirrors, descending neighbour order; C14 create into filled rules, clones/moves, float rules, scalar factory; C15 one
+evaluator / node-functional object reused over cells in reversed, doubled and special-first orders, single-tag configurations; C16
+bystander layout clones, alpha alphabet {0,1,-1,0.5} on marker-filled targets, element/facet orders and complementary subsets; C18
+re-assembly into marked weak clones, weight-vector and cubature-name overloads, meshes scaled by 2^+-30; C19 self-aliasing
+(`p.concat(p)`, `g.compose(g)`, `Graph(rt,g,g)`), renders from moved/deserialised graphs, scrambled adjacency order; C20 no-op
+transitions kept one more level, accessors as first access, raw-pointer co-owner constructor. The round found four more genuine defects
+(all repaired): `sync_X_async().wait()` on a gate without neighbours (C13), RGCR recycled directions surviving `init_numeric` (C07),
+`Permutation::concat` and `DynamicGraph::compose` with the object itself (C19).
 """%(n,nd,tbl,len(missed_first),", ".join(missed_first))
 s=open('/verif/DESIGN.md').read()
 s=s[:s.index('### 9.7')].rstrip()+"\n\n"+txt
